@@ -20,8 +20,8 @@ from . import vals
 from . import interp as I
 from .vals import Val
 
-ClassAttr = z3.Function('ClassAttr', z3.IntSort(), z3.StringSort(), vals.VS)
-DYN_SORT = z3.ArraySort(z3.IntSort(), z3.ArraySort(z3.StringSort(), vals.VS))
+ClassAttr = z3.Function('ClassAttr', z3.IntSort(), vals.STR, vals.VS)
+DYN_SORT = z3.ArraySort(z3.IntSort(), z3.ArraySort(vals.STR, vals.VS))
 
 
 def dyn_heap(p):
@@ -99,8 +99,8 @@ def install(E, bb):
     def slot_literal(n):
         from .builtins_model import _h
         name = 'Tmpl_' + _h(repr(('_', '_value')))
-        f = z3.Function(name, z3.StringSort(), z3.StringSort())
-        inv = z3.Function(name + '_inv', z3.StringSort(), z3.StringSort())
+        f = z3.Function(name, vals.STR, vals.STR)
+        inv = z3.Function(name + '_inv', vals.STR, vals.STR)
         return z3.simplify(n == f(inv(n)))
 
     def slot_shaped(n):
@@ -116,8 +116,8 @@ def install(E, bb):
         like a slot ('_<x>_value'), so a slot-named attribute is the instance slot"""
         from .builtins_model import _h
         name = 'Tmpl_' + _h(repr(('_', '_value')))
-        f = z3.Function(name, z3.StringSort(), z3.StringSort())
-        inv = z3.Function(name + '_inv', z3.StringSort(), z3.StringSort())
+        f = z3.Function(name, vals.STR, vals.STR)
+        inv = z3.Function(name + '_inv', vals.STR, vals.STR)
         E.assumptions.add("generated classes have no field descriptor named '_<x>_value' (slot names)")
         E.axiom(z3.Implies(n == f(inv(n)), z3.Not(is_descriptor(ClassAttr(c, n)))))
 
@@ -196,7 +196,12 @@ def install(E, bb):
                 return I.C(st.__func__)
             if isinstance(st, types.FunctionType):
                 return I.C(st)
-        r = ClassAttr(c, z3.StringVal(name))
+        gen = getattr(E, 'gen_class_attr', None)
+        if gen is not None and B is not None:
+            r = gen(c, name)
+            if r is not None:
+                return I.T(r)
+        r = ClassAttr(c, vals.strlit(name))
         E.fail_if(r == Val.VAbsent, AttributeError, 'class attribute ' + name)
         return I.T(r)
     E.symbolic_class_getattr = symbolic_class_getattr
@@ -308,21 +313,6 @@ def install(E, bb):
 
     E.getattr_symbolic_name = dyn_getattr
 
-    def on_classattr(t):
-        c, n = t.arg(0), t.arg(1)
-        if I._mentions_binder([t], 4):
-            return
-        note_name(n)
-        slot_axiom(c, n)
-
-    def on_fieldindex(t):
-        if I._mentions_binder([t], 4):
-            return
-        D = t.arg(0)
-        fields = ClassAttr(z3.simplify(Val.cid(D)), z3.StringVal('_all_fields_'))
-        E.path.index(t, Val.llen(fields))
-    E.instance_hooks = {'ClassAttr': on_classattr, 'FieldIndex': on_fieldindex}
-
     def dyn_setattr(obj, name_sv, v):
         n = name_term(name_sv)
         if not isinstance(obj, I.T):
@@ -379,6 +369,6 @@ def install(E, bb):
         E.assumptions.add('generated struct constructors called without arguments set every field slot to '
                           'NOT_SET (emitted __init__; part of the generator well-formedness stand-in)')
         h = dyn_heap(E.path)
-        E.path.heap['$dyn'] = z3.Store(h, oid, z3.K(z3.StringSort(), Val.VNotSet))
+        E.path.heap['$dyn'] = z3.Store(h, oid, z3.K(vals.STR, Val.VNotSet))
         return obj
     E.call_symbolic = call_symbolic
